@@ -103,6 +103,7 @@ func genDispatch(c *ctx) string {
 	b.WriteString("def dirArgWrapperAccepted : Bool := " + dirArgTypeTest(c) + "\n")
 	b.WriteString("def descRaw : Bool := " + descForm(c) + "\n")
 	b.WriteString("def assureOnce : Bool := " + assureSchemaForm(c) + "\n")
+	b.WriteString("def dupMembersAccepted : Bool := " + dupMembersForm(c) + "\n")
 	b.WriteString("def inputNullTakesDefault : Bool := " + inputNullForm(c) + "\n")
 	dlv, tld := dirLoopAndTypeLookupForms(c)
 	b.WriteString("def dirLoopByVisited : Bool := " + dlv + "\n")
@@ -898,4 +899,28 @@ func inputNullForm(c *ctx) string {
 		return "false"
 	}
 	return unknown("Input.CoerceIn null / default", c.pos(fd))
+}
+
+// dupMembersForm reads (*Union).Validate and (*Object).Validate: is a union member / an implemented interface that
+// is written twice in a definition accepted (D89: `Extend` refuses the repetition, so inline and extended forms of
+// one definition set disagreed) or reported?  Both must agree.
+func dupMembersForm(c *ctx) string {
+	u, o := c.funcs["Union.Validate"], c.funcs["Object.Validate"]
+	if u == nil || o == nil {
+		return unknown("Union/Object.Validate", "union.go")
+	}
+	norm := func(n ast.Node) string {
+		t := regexp.MustCompile(`(?m)//.*$`).ReplaceAllString(c.src(n), "")
+		return regexp.MustCompile(`\s+`).ReplaceAllString(t, " ")
+	}
+	us, os := norm(u.Body), norm(o.Body)
+	uNew := strings.Contains(us, `for i, m := range t.Members { for _, m2 := range t.Members[:i] { if m.Name() == m2.Name() { errs = append(errs, fmt.Errorf("%w, union member %s is repeated in %s at %d:%d", ErrValidation, m.Name(), t.Name(), t.line, t.col)) } }`)
+	oNew := strings.Contains(os, `for i, it := range t.Interfaces { for _, it2 := range t.Interfaces[:i] { if it.Name() == it2.Name() { errs = append(errs, fmt.Errorf("%w, interface %s is repeated on %s at %d:%d", ErrValidation, it.Name(), t.Name(), t.line, t.col)) } }`)
+	switch {
+	case uNew && oNew:
+		return "false"
+	case !strings.Contains(us, "repeated") && !strings.Contains(os, "repeated") && strings.Contains(us, "for _, m := range t.Members {") && strings.Contains(os, "for _, it := range t.Interfaces {"):
+		return "true"
+	}
+	return unknown("Union/Object.Validate repetition check", c.pos(u))
 }
